@@ -35,9 +35,79 @@ def lock_ho_helpers(prog):
     return out
 
 
+def leaf_helpers(prog):
+    """tiny data-only bodies that cannot be named from outside the crate: no call, no branch, at most one overflow
+    check (`Span::new(start, len) -> Span(start, start + len)`, `span.start()`); every use is a direct call.  Written
+    out at their callers they are a field read / an aggregate / one addition, which is what the boundary and span
+    rules read.  Trait impls (`From::from`), derived code and predicates (they branch) are not touched."""
+    out = {}
+    escaped = set(getattr(prog, 'fnitem_escapes', {}) or {})
+    for g in prog.bodies:
+        if g.is_closure or g.derived or g.impl_trait or prog._publicly_reachable(g) or g.id in escaped:
+            continue
+        if g.live_calls or g.n > 3 or g.arg_count < 1 or not prog.callers.get(g.id):
+            continue
+        if any(g.blocks[b]['term']['k'] in ('switch', 'call', 'drop') for b in g.live_blocks):
+            continue
+        if g.id in prog.callers.get(g.id, ()):
+            continue
+        out[g.id] = g
+    return out
+
+
+def _propagate_int_consts(j):
+    """an argument bound to a literal at an opened call site (`Span::new(start, 1)` -> `_10 = 1_usize; .. Add(_13, copy _10)`)
+    is the literal: locals with exactly one definition, a constant integer (or a copy of such a local), are replaced
+    by the constant where they are read as plain operands"""
+    ndef = {}
+    cdef = {}
+    for blk in j['blocks']:
+        for st in blk['stmts']:
+            if st['k'] == 'assign':
+                l = st['pl']['l']
+                ndef[l] = ndef.get(l, 0) + 1
+                if not st['pl']['p'] and st['rv']['k'] == 'use':
+                    cdef[l] = st['rv']['op']
+            elif st['k'] == 'set_discr':
+                ndef[st['pl']['l']] = ndef.get(st['pl']['l'], 0) + 2
+        t = blk['term']
+        if t['k'] == 'call':
+            ndef[t['dest']['l']] = ndef.get(t['dest']['l'], 0) + 2
+    nargs = j.get('arg_count', 0)
+    def const_of(op, depth=0):
+        if op['k'] == 'const':
+            return op if 'int' in op and 'static' not in op else None
+        if depth > 4 or op['k'] not in ('copy', 'move') or op['pl']['p']:
+            return None
+        l = op['pl']['l']
+        if l <= nargs or ndef.get(l, 0) != 1 or l not in cdef:
+            return None
+        return const_of(cdef[l], depth + 1)
+    def fix(op):
+        if isinstance(op, dict) and op.get('k') in ('copy', 'move'):
+            c = const_of(op)
+            if c is not None:
+                return dict(c)
+        return op
+    for blk in j['blocks']:
+        for st in blk['stmts']:
+            if st['k'] != 'assign':
+                continue
+            rv = st['rv']
+            if rv['k'] == 'binop':
+                rv['a'], rv['b'] = fix(rv['a']), fix(rv['b'])
+            elif rv['k'] == 'agg':
+                rv['ops'] = [fix(o) for o in rv['ops']]
+        t = blk['term']
+        if t['k'] == 'call':
+            t['args'] = [fix(a) for a in t['args']]
+
+
 def normalise(prog, facts_cls):
     """returns (new Facts, {helper name: [callers]}) or (None, {}) when nothing qualifies"""
-    helpers = lock_ho_helpers(prog)
+    lock_helpers = lock_ho_helpers(prog)
+    helpers = dict(lock_helpers)
+    helpers.update(leaf_helpers(prog))
     if not helpers:
         return None, {}
     import inline
@@ -57,6 +127,7 @@ def normalise(prog, facts_cls):
         if not any(i in helpers for i in ids):
             continue
         nj = v.j
+        _propagate_int_consts(nj)
         nj['id'] = b.id
         nj['opened_helpers'] = [prog.by_id[i].name for i in ids if i in helpers]
         j['bodies'][by_id[b.id]] = nj
@@ -76,7 +147,7 @@ def normalise(prog, facts_cls):
                 if r.get('uid'):
                     still_called.add(r['uid'])
     drop = {h for h in helpers if h not in still_called}
-    if len(drop) != len(helpers):
+    if any(h not in drop for h in lock_helpers):
         return None, {}          # a call site this reading could not open (through a fn pointer, ..): leave the program as written
     drop |= {i for i in opened if prog.by_id[i].is_closure}
     keep_bodies = []
